@@ -520,6 +520,7 @@ impl<'a, 'b> Sem<'a, 'b> {
             .choose(&[
                 "sv", "a b", " lead", "trail ", "  both  ", "in  ner", "l1\nl2", "l1 \n  l2", "\n x \n",
                 "tab\there", "", " ", "nb\u{a0}sp", "\u{a0}edge\u{a0}", "cr\rlf", "a\r\n b", "\u{2003}em",
+                "a&b", "say \"hi\"", "it's \"x\" & y", "&amp;literal", "<tag> {brace}",
             ])
             .to_string()
     }
